@@ -1,5 +1,6 @@
 (* C26 — property theorems (statements only; proofs in Base/C07Graph.v, Base/C26Dist.v, C26/Proofs.v).
    Model: C26/Model.v (create_nxgraph under all options, connected_components, calc_distance_to_bus). *)
+From Coq Require Import String.
 From Coq Require Import List Bool Arith QArith.
 From PPV Require Import Base.C07Graph Base.C26Dist C07.Model C26.Model C26.Proofs.
 Import ListNotations.
@@ -65,6 +66,17 @@ Theorem C26_distances_complete : forall g src l, distances g src = Ok l ->
   forall x W, walk (warcs g) src x W -> exists q, In (x, q) l.
 Proof. exact distances_complete. Qed.
 Print Assumptions C26_distances_complete.
+
+(* regression witness for "create_nxgraph removes out-of-service buses before the notravbuses edges": the old stage
+   order raised KeyError (out-of-service bus next to a notravbus) or left a dangling adjacency entry (out-of-service
+   notravbus); the new order returns graphs whose arcs all end at nodes *)
+Theorem C26_notrav_oos_old_refuted :
+  create_nxgraph_old (o_default [1]) w_chain [1; 1; 1]%Q = Raise "KeyError"%string /\
+  (exists g, create_nxgraph_old (o_default [2]) w_chain [1; 1; 1]%Q = Ok g /\ no_dangling g = false) /\
+  (exists g, create_nxgraph (o_default [1]) w_chain [1; 1; 1]%Q = Ok g /\ no_dangling g = true) /\
+  (exists g, create_nxgraph (o_default [2]) w_chain [1; 1; 1]%Q = Ok g /\ no_dangling g = true).
+Proof. exact notrav_oos_old_refuted. Qed.
+Print Assumptions C26_notrav_oos_old_refuted.
 
 Example C26_nonvacuous :
   let g := {| g_nodes := [0; 1; 2; 3]; g_arcs := [(0, 1, (0, 0), 2%Q); (1, 0, (0, 0), 2%Q); (1, 2, (0, 1), 1%Q); (2, 1, (0, 1), 1%Q);
